@@ -368,6 +368,18 @@ def run(ctx):
             continue
         cs = q.calls_named(f, callee)
         if len(cs) != 2:
+            # one call per player written as a loop / a mapped closure over the players: the call must not be skipped
+            # for a player under any condition of its own (only the iteration protocol and the previous `?` may guard it)
+            hosts = [(f, c_) for c_ in cs] + [(g_, c_) for g_ in lib.closures_of(f) for c_ in q.calls_named(g_, callee)]
+            if len(hosts) == 1:
+                g_, (bi_, t_, e_) = hosts[0]
+                in_iter = g_.is_closure or g_.loop_of(bi_) is not None
+                guards = [c for c in g_.conds(bi_) if c['kind'] != 'variant']
+                if in_iter:
+                    ctx.verdict(not guards, 'C14.ok-through-import', 'C14.ok-through-import:%s' % suf.split('::')[-1],
+                                'every Ok(..) built by the entry point lies behind the validating import of both players\' input: the per-player import is not skipped under a condition', g_.where(bi_),
+                                'one %s call per iteration over the players; conditions guarding it: %s' % (callee, ['%s(%s) edge %s' % (c['kind'], facts.show(c['a'])[:40], c.get('truth')) for c in guards]),
+                                breaks='some inputs (e.g. for a player without multi-action infosets) are accepted without being validated')
             ctx.anchor_lost(rule, '%s: two calls of %s' % (suf, callee), 'found %d' % len(cs))
             continue
         for bi, t, e in cs:
